@@ -16,33 +16,25 @@
    History.  On the originally pinned tree I1, I3, I4 and I5 were all violated (reservations
    were released by a successful bundle only; add_block_transactions_back re-inserted around
    the index and the cache; a failed Block::create left index and cache behind and lost the
-   drained pool).  The fixes 0fedb86, 2cf0b5a, cafb4ab, ff837ac, 1214e31 repaired that; the
-   model follows /repo HEAD (also f62222f, e0300b2, 9879695 of the producer side).
+   drained pool; after 1214e31 a successful bundle kept the reservations of a left-out
+   transaction's other inputs).  The fixes 0fedb86, 2cf0b5a, cafb4ab, ff837ac, 1214e31,
+   ffb4da9 repaired that; the model follows /repo HEAD (also f62222f, e0300b2, 9879695 of the
+   producer side).  The histories that used to break the pool are Example
+   C14_regression_examples / C14_example_left_out.
 
-   Now: I1, I2, I5 and the auxiliary invariants hold after EVERY operation sequence.
+   Now: I1, I2, I3, I5 and the auxiliary invariants hold after EVERY operation sequence.
    I4 holds for every bundle whose Block::create does not fail, with one exception that is
    part of the statement: a pooled transaction that spends an output which the produced
    block itself rebroadcasts is left out of the block and of the pool (1214e31; such a
    transaction can never validate again once the block is on the chain:
-   C14_I4_left_out_is_doomed).  A failing Block::create (not reachable with well-formed
-   transactions: C14_I4_create_succeeds) now hands the pool back.
-
-   What is still violated, by a side effect of that leaving-out: I3.  A successful bundle
-   releases the reservations of the inputs of the block's transactions only, so the OTHER
-   inputs of a left-out transaction stay reserved although no pooled transaction names them,
-   until the next block addition rebuilds the index:
-
-     I3  forall g ops s, run (init g) ops = Ok s -> I3 (pl s)                      (FALSE)
-
-   Known_C14_left_out_stale is that step class (C14_I3_no_stale_reservation_refuted,
-   C14_I3_funds_locked_refuted); I3 is proved for every run outside it, and after every block
-   addition regardless of what happened before. *)
+   C14_I4_left_out_is_doomed).  A failing Block::create is not reachable with well-formed
+   transactions (C14_I4_create_succeeds) and hands the pool back
+   (C14_I4_failed_create_restores_pool); C14_failed_create is that decidable step class. *)
 From Saito Require Import Base Mempool MempoolProofs.
 
-Definition Known_C14_left_out_stale := ev_left_out_stale.
 Definition C14_failed_create := ev_failed_create.
 
-(* ---------------- I1, I5: after every operation sequence ---------------- *)
+(* ---------------- I1, I3, I5: after every operation sequence ---------------- *)
 
 (* signatures are unique keys; every input of a pooled transaction is reserved;
    I1 no two pooled transactions spend the same value-carrying output;
@@ -79,32 +71,19 @@ Proof. exact pooled_valid_always. Qed.
 
 (* ---------------- I3: no stale reservation; unspent outputs stay spendable ---------------- *)
 
-Theorem C14_I3_no_stale_reservation_refuted :
-  exists g ops s, run (init g) ops = Ok s /\
-    known_in Known_C14_left_out_stale (init g) ops = true /\ ~ I3 (pl s).
-Proof. exact I3_refuted_left_out. Qed.
-
-(* user-visible: after the bundle above and a failed addition of the bundled block, a
-   spendable output that no pooled transaction names, and a fresh valid transaction spending
-   it that the pool silently drops *)
-Theorem C14_I3_funds_locked_refuted :
-  exists g ops s t, run (init g) ops = Ok s /\ funds_locked s t.
-Proof. exact funds_locked_left_out. Qed.
-
+(* every reservation belongs to a pooled transaction *)
 Theorem C14_I3_no_stale_reservation : forall g ops s,
-  known_in Known_C14_left_out_stale (init g) ops = false ->
   run (init g) ops = Ok s -> I3 (pl s).
 Proof. exact no_stale_reservation. Qed.
 
-(* every block addition re-establishes I3, whatever happened before *)
+(* a block addition establishes I3 from any pool state whatsoever *)
 Theorem C14_I3_no_stale_reservation_after_block : forall s l b x,
   step s (OBlockAdded l b) = Ok x -> I3 (pl (fst x)).
 Proof. exact no_stale_reservation_after_block. Qed.
 
-(* user-visible form on those runs: an output that no pooled transaction names as an input
-   is accepted when a fresh valid transaction spends it *)
+(* user-visible form: after every operation sequence an output that no pooled transaction
+   names as an input is accepted when a fresh valid transaction spends it *)
 Theorem C14_I3_unspent_always_spendable : forall g ops s t,
-  known_in Known_C14_left_out_stale (init g) ops = false ->
   run (init g) ops = Ok s ->
   tx_validate (ledger s) t = true -> t_type t <> TGoldenTicket -> producer_only t = false ->
   has_tx (t_id t) (txs (pl s)) = false ->
@@ -117,9 +96,9 @@ Proof. exact unspent_always_spendable. Qed.
 (* Every bundle, in any pool state, whose Block::create does not fail.
    None: the pool is untouched, except that a pooled golden ticket which does not solve the
    tip has been dropped (e0300b2).
-   Some b: b has no double spend, the pool is emptied and the cache reset, no input of a
-   transaction of b stays reserved, and every pooled transaction is in b -- except those
-   spending an output that b itself rebroadcasts. *)
+   Some b: b has no double spend, the pool is emptied, the cache reset and no reservation
+   left, and every pooled transaction is in b -- except those spending an output that b
+   itself rebroadcasts. *)
 Theorem C14_I4_bundle_atomic : forall l p ts bg env wn st ex p' r,
   bundle_block l p ts bg env wn st ex = Ok (p', r) ->
   create_fails l (drop_bad_gt p bg) env wn st ex = false ->
@@ -128,7 +107,7 @@ Theorem C14_I4_bundle_atomic : forall l p ts bg env wn st ex p' r,
   | Some b => ts = true /\ txs p' = [] /\ work p' = 0 /\ dup_spend b = false /\
               (forall t, In t (txs p) ->
                  In t b \/ (exists k, In k (vkeys t) /\ In k (rebroadcast_keys ex))) /\
-              (forall t k, In t b -> In k (in_keys t) -> ~ In k (umap p')) /\
+              umap p' = [] /\
               gts p' = gts (drop_bad_gt p bg)
   end.
 Proof. exact bundle_atomic. Qed.
@@ -206,17 +185,17 @@ Example C14_regression_examples :
              map t_id b = [90; 15; 30] /\ umap p' = []).
 Proof. exact regression_examples. Qed.
 
-(* the leaving-out seen from I4 and I3: transaction 10 (inputs 1 and 2) is neither in the
-   block nor in the pool, and output 2 stays reserved *)
+(* the leaving-out: transaction 10 (inputs 1 and 2) is neither in the block nor in the
+   pool; no reservation is left (before ffb4da9 output 2 stayed reserved) *)
 Example C14_example_left_out :
   exists s p' b, run (init wG) [OAddTx wA2; OAddTx wE] = Ok s /\
     bundle_block (ledger s) (pl s) true None true 0 (Some wS) [wR] = Ok (p', Some b) /\
-    map t_id b = [90; 15; 30] /\ txs p' = [] /\ umap p' = [2].
+    map t_id b = [90; 15; 30] /\ txs p' = [] /\ umap p' = [].
 Proof. exact left_out_example. Qed.
 
 Example C14_example_life_cycle :
   exists s, run (init wG) ops_life = Ok s /\
-    known_in (fun s o => C14_failed_create s o || Known_C14_left_out_stale s o) (init wG) ops_life = false /\
+    known_in C14_failed_create (init wG) ops_life = false /\
     map t_id (txs (pl s)) = [18; 15] /\ umap (pl s) = [4; 3] /\ work (pl s) = 47 /\
     gts (pl s) = [].
 Proof. exact life_example. Qed.
@@ -227,8 +206,6 @@ Print Assumptions C14_I5_routing_work_cache.
 Print Assumptions C14_I5_exact_after_block.
 Print Assumptions C14_I2_pooled_valid_after_block.
 Print Assumptions C14_I2_pooled_valid_always.
-Print Assumptions C14_I3_no_stale_reservation_refuted.
-Print Assumptions C14_I3_funds_locked_refuted.
 Print Assumptions C14_I3_no_stale_reservation.
 Print Assumptions C14_I3_no_stale_reservation_after_block.
 Print Assumptions C14_I3_unspent_always_spendable.
